@@ -77,6 +77,8 @@ fn obs_of(o: &J) -> Observation {
             "nan" => f64::NAN,
             "inf" => f64::INFINITY,
             "ninf" => f64::NEG_INFINITY,
+            "zero" => 0.0,
+            "nzero" => -0.0,
             _ => jf(o, "v", 0.0),
         }),
         "r" => Observation::Repeated { total: jf(o, "total", 0.0), occurrences: ju(o, "n", 0) },
@@ -1634,7 +1636,36 @@ impl Scenario for EmfHistory {
             // now and then the long-lived formatter is replaced by its own clone (same configuration, a history)
             calls.push(json!({"entry": entry, "fault": fault, "sample": sample, "clone_first": rng.chance(0.06)}));
         }
-        json!({"sched": {"seed": rng.next_u64() >> 1}, "config": cfg, "calls": calls, "fault_free_stratum": !faulty})
+        // a tenth of the histories: two entries in a row whose only floating-point observation is a zero, positive in
+        // the first and negative in the second (equal as numbers, different as text); from a copy of the generator
+        let mut r2 = rng.clone();
+        if r2.next_u64() % 10 == 0 {
+            let mk = |r2: &mut Rng, special: &str| {
+                let mut e = gen_entry(r2, &cfg, false, false);
+                if let Some(items) = e.get_mut("items").and_then(|i| i.as_array_mut()) {
+                    for it in items.iter_mut().filter(|i| js(i, "k", "") == "metric") {
+                        it["obs"] = json!([{"t":"u","v":3}]);
+                    }
+                    items.push(json!({"k":"metric","name":"Zero","obs":[{"t":"f","special":special}],"unit":0,"dims":[],"flag":0}));
+                }
+                json!({"entry": e, "fault": J::Null, "sample": J::Null, "clone_first": false})
+            };
+            let at = (r2.next_u64() as usize) % (calls.len() + 1);
+            let (a, b) = if r2.next_u64() % 2 == 0 { ("zero", "nzero") } else { ("nzero", "zero") };
+            let first = mk(&mut r2, a);
+            let mut second = first.clone();
+            if let Some(items) = second["entry"].get_mut("items").and_then(|i| i.as_array_mut()) {
+                if let Some(last) = items.last_mut() {
+                    last["obs"] = json!([{"t":"f","special":b}]);
+                }
+            }
+            calls.insert(at, second);
+            calls.insert(at, first);
+        }
+        // one history in 1 500 starts on a formatter that has already formatted 5 000 - 12 000 entries
+        let pre = r2.next_u64();
+        let prehistory = if pre % 1_500 == 0 { json!(5_000 + (pre / 1_500) % 7_000) } else { J::Null };
+        json!({"sched": {"seed": rng.next_u64() >> 1}, "config": cfg, "calls": calls, "fault_free_stratum": !faulty, "prehistory": prehistory})
     }
     fn run(&self, plan: &J) -> Report {
         let mut r = Report::default();
@@ -1643,6 +1674,18 @@ impl Scenario for EmfHistory {
         let mut long_lived = Fmt::build(cfg);
         let mut classes: Vec<String> = vec![];
         let mut st = BTreeSet::new();
+        // plan key `prehistory`: before the history proper the long-lived formatter has already formatted thousands of
+        // (split, accepted) entries - a formatter that has been in service for a while
+        if let (Some(n), Some(first)) = (plan.get("prehistory").and_then(|x| x.as_u64()), ja(plan, "calls").first()) {
+            if first["entry"].get("report").is_none() && !first["entry"].to_string().contains("\"t\":\"panic\"") {
+                let e = GenEntry::from_spec(&first["entry"]);
+                for _ in 0..n {
+                    let mut sink = FaultyWriter::perfect();
+                    let _ = long_lived.call(&e, &mut sink, None);
+                }
+                r.probe("formatter_with_a_long_history", 1);
+            }
+        }
         for (i, call) in ja(plan, "calls").iter().enumerate() {
             let spec = &call["entry"];
             let sampled = call.get("sample").and_then(|s| s.as_array()).map(|a| (a[0].as_f64().unwrap_or(1.0) as f32, a[1].as_u64().unwrap_or(0)));
